@@ -14,6 +14,10 @@ class Sent:
     def __invert__(self):
         return Sent(f'~{self.name}')
 
+    def __neg__(self):
+        # Sentence.negative(): strips a negation if there is one -- not the same sentence as ~s for a negated s
+        return Sent(f'negative({self.name})')
+
     def __repr__(self):
         return self.name
 
